@@ -122,13 +122,17 @@ def harness(variant='rel'):
     raise BuildError('unknown harness variant ' + variant)
 
 
-def miri_cmd(args, seed=None):
+def miri_cmd(args, seed=None, tree_borrows=False):
     """Command + env + cwd to run the harness under Miri with the given arguments."""
     src = _harness_src()
     env = dict(ENV)
     flags = '-Zmiri-disable-isolation'
     if seed is not None:
         flags += ' -Zmiri-seed=%d' % seed
+    if tree_borrows:
+        # rayon's crossbeam-epoch is rejected by the (experimental) Stacked Borrows model in its own intrusive list;
+        # operations that start the rayon pool are interpreted under Tree Borrows instead
+        flags += ' -Zmiri-tree-borrows -Zmiri-ignore-leaks'      # the global rayon pool is never joined
     env['MIRIFLAGS'] = flags
     tdir = os.path.join(BUILD, 'harness-miri')
     cmd = ['cargo', '+nightly', 'miri', 'run', '--offline', '--manifest-path', os.path.join(src, 'Cargo.toml'),
